@@ -12,7 +12,7 @@ CONSTANTS
   Sequential = FALSE
   SplitLoads = FALSE
   Fused = TRUE
-  BKeys = {"k1", "k2"}
+  BKeys = {"k1"}
   PerWriter = 1
   RandomPick = FALSE
   Rich = FALSE
@@ -22,7 +22,7 @@ CONSTANTS
   MaxReads = 1
   MaxSizes = 0
   MaxOps = 4
-INVARIANTS ValuesContract SizeAccounting CountersNonNegative EntriesTyped
+INVARIANTS ValuesContract SizeAccounting PresenceOK CountersNonNegative EntriesTyped
 PROPERTIES RejectedStoresNothing TypeConflictOneKey WriteOutcomeStep LimitStep
 VIEW View
 CHECK_DEADLOCK FALSE
